@@ -221,6 +221,12 @@ def mutants_at(base, pos: int):
             fr = [list(f) for f in base["frames"]]
             fr[fi][ri + 1:ri + 1] = [jwire.mkrow("triple", TR)]
             yield "triple-after-graph-end", fr
+            # the graph is started once more before it ends (a producer may do that), then a
+            # triple follows the single graph end
+            fr2 = [list(f) for f in base["frames"]]
+            fr2[fi][ri:ri] = [jwire.mkrow("graph_start", {"g": ("bnode", "again")})]
+            fr2[fi][ri + 2:ri + 2] = [jwire.mkrow("triple", TR)]
+            yield "triple-after-restarted-graph-end", fr2
 
 
 def offending(frames) -> tuple[str, int, int] | None:
